@@ -230,6 +230,31 @@ fn zstd_bytes(text: &[u8]) -> Vec<u8> {
     zstd::encode_all(text, 1).expect("zstd compression")
 }
 
+/// Where to cut the text into separately compressed frames / members
+/// (derived from the case, not from fresh bytes): 1 to 3 pieces, cuts anywhere,
+/// also in the middle of a line.
+fn pieces<'a>(text: &'a [u8], c: &Case) -> Vec<&'a [u8]> {
+    let k = match c.items.len() % 4 {
+        2 => 2,
+        3 => 3,
+        _ => 1,
+    };
+    if text.len() < k || k == 1 {
+        return vec![text];
+    }
+    let jitter = c.items.first().copied().unwrap_or(0) as usize;
+    let mut cuts: Vec<usize> = (1..k).map(|i| (text.len() * i / k + jitter % 7).min(text.len())).collect();
+    cuts.dedup();
+    let mut out = vec![];
+    let mut a = 0;
+    for cpos in cuts {
+        out.push(&text[a..cpos]);
+        a = cpos;
+    }
+    out.push(&text[a..]);
+    out
+}
+
 fn gzip_bytes(text: &[u8]) -> Vec<u8> {
     let mut e = flate2::write::GzEncoder::new(Vec::new(), flate2::Compression::fast());
     e.write_all(text).unwrap();
@@ -264,7 +289,7 @@ impl Property for C20 {
         vec![Segment::random("histories", tier.pick(480_000, 18_000_000), &[0], 48, 700), Segment::random("big-inputs", tier.pick(12_000, 600_000), &[1], 64, 3000)]
     }
     fn rule(&self) -> &'static str {
-        "case = (lender kind in {LineLender over Cursor / BufReader<File> / small-capacity BufReader, ZstdLineLender over Cursor / File, GzipLineLender over Cursor / File, FromIntoIterator over Vec<u32> / Range / Vec<String>}, optional take(m) with m in {0,1,len-1,len,len+1,..}, input text with empty lines, CRLF/LF/mixed terminators, lone CR, multi-byte characters, a first line starting with a UTF-8 byte-order mark or '#', lines longer than the BufReader, with/without final terminator, history of Next xj / Rewind with <=7 rewinds) decoded from bytes; oracle = the harness' own line splitter (resp. the item vector) truncated to m; every item of every pass compared, None exactly at the end, rewind() must be Ok. Non-trivial: a rewind after >=1 consumed item on a non-empty input; distinct = distinct hash of the decoded case."
+        "case = (lender kind in {LineLender over Cursor / BufReader<File> / small-capacity BufReader, ZstdLineLender over Cursor / File, GzipLineLender over Cursor / File, FromIntoIterator over Vec<u32> / Range / Vec<String>}, optional take(m) with m in {0,1,len-1,len,len+1,..}, input text with empty lines, CRLF/LF/mixed terminators, lone CR, multi-byte characters, a first line starting with a UTF-8 byte-order mark or '#', zstd sources made of 1-3 concatenated frames and gzip sources of 1-3 members cut anywhere (for several gzip members the reference is the first pass of a fresh lender), lines longer than the BufReader, with/without final terminator, history of Next xj / Rewind with <=7 rewinds) decoded from bytes; oracle = the harness' own line splitter (resp. the item vector) truncated to m; every item of every pass compared, None exactly at the end, rewind() must be Ok. Non-trivial: a rewind after >=1 consumed item on a non-empty input; distinct = distinct hash of the decoded case."
     }
     fn run(&self, data: &[u8], cx: &mut Ctx) -> R {
         let (mode, rest) = data.split_first().unwrap_or((&0, &[]));
@@ -288,17 +313,39 @@ impl Property for C20 {
             }
             2 => run_kind!(cx, c, lines, show_str, LineLender::new(BufReader::with_capacity(c.bufcap, Cursor::new(c.text.clone())))),
             3 => {
-                let z = zstd_bytes(&c.text);
+                // concatenated frames decode as one stream
+                let ps = pieces(&c.text, &c);
+                cx.label_if(ps.len() > 1, "multi_frame");
+                let z: Vec<u8> = ps.iter().flat_map(|p| zstd_bytes(p)).collect();
                 let l = cx.must("ZstdLineLender::new", || ZstdLineLender::new(Cursor::new(z)))?.map_err(|e| Fail::mismatch("new.err", format!("ZstdLineLender::new failed: {e}")))?;
                 run_kind!(cx, c, lines, show_str, l)
             }
             4 => {
-                let f = temp_with(&zstd_bytes(&c.text));
+                let ps = pieces(&c.text, &c);
+                cx.label_if(ps.len() > 1, "multi_frame");
+                let z: Vec<u8> = ps.iter().flat_map(|p| zstd_bytes(p)).collect();
+                let f = temp_with(&z);
                 let l = cx.must("ZstdLineLender::from_file", || ZstdLineLender::new(f))?.map_err(|e| Fail::mismatch("new.err", format!("ZstdLineLender::new failed: {e}")))?;
                 run_kind!(cx, c, lines, show_str, l)
             }
             5 => {
-                let z = gzip_bytes(&c.text);
+                let ps = pieces(&c.text, &c);
+                let z: Vec<u8> = ps.iter().flat_map(|p| gzip_bytes(p)).collect();
+                let lines = if ps.len() > 1 {
+                    // several gzip members: whatever a first pass of a fresh lender yields is the reference
+                    cx.label("multi_member");
+                    let mut probe = cx.must("GzipLineLender::new", || GzipLineLender::new(Cursor::new(z.clone())))?.map_err(|e| Fail::mismatch("new.err", format!("GzipLineLender::new failed: {e}")))?;
+                    let mut first_pass = vec![];
+                    while let Some(r) = cx.must("next", || probe.next().map(|r| r.map(|s| s.to_string()).map_err(|e| e.to_string())))? {
+                        match r {
+                            Ok(s) => first_pass.push(s),
+                            Err(_) => return Ok(()), // a source the lender itself rejects: nothing to replay
+                        }
+                    }
+                    first_pass
+                } else {
+                    lines
+                };
                 let l = cx.must("GzipLineLender::new", || GzipLineLender::new(Cursor::new(z)))?.map_err(|e| Fail::mismatch("new.err", format!("GzipLineLender::new failed: {e}")))?;
                 run_kind!(cx, c, lines, show_str, l)
             }
